@@ -286,7 +286,7 @@ def _q(ta, tb, U=False, A=False, tag=None, og=False):
 
 DEFAULT_MIX = {"uniform": 4, "sweep": 2, "adaptive": 2, "cluster": 2, "nested": 1, "tiny": 1, "requery": 3,
                "whole": 0.5, "point": 0.7, "zero": 0.5, "triple": 3, "offgrid": 0.7, "dyadic": 1.5, "outside": 0.4,
-               "env": 0.25, "sib": 0.0}
+               "env": 0.25, "sib": 0.0, "misc": 0.3}
 
 
 def _dyadic(rng, cfg, dom):
@@ -430,6 +430,15 @@ def gen_ops(rng, cfg, dom, n_target, mix=None):
             # environment perturbation between queries: the process-wide default dtype is switched (legal, and
             # irrelevant to an object whose dtype was fixed at construction)
             ops.append({"op": "env", "default_dtype": rng.choice(["float32", "float64", "float64"])})
+        elif k == "misc":
+            # other legal things a caller does with the object between two queries; none of them is a query, so none may
+            # disturb the answers (round 3): a *rejected* call (ta > tb raises before anything is looked up), reading the
+            # public attributes, repr(), printing the tree
+            what = rng.choice(["rejected", "rejected", "props", "repr", "dump"])
+            a, b = ordered(_t(rng, cfg, dom), _t(rng, cfg, dom))
+            if a == b:
+                continue
+            ops.append({"op": "misc", "what": what, "ta": fx(b), "tb": fx(a)})  # note: ta > tb
         elif k == "sib":
             # a query to a *sibling object* (same entropy, other sample shape / dtype) living in the same process
             a, b = ordered(_t(rng, cfg, dom), _t(rng, cfg, dom))
@@ -495,7 +504,7 @@ def add_faults(rng, ops, rate):
     if rate <= 0:
         return
     for op in ops:
-        if op["op"] in ("env", "sib"):
+        if op["op"] in ("env", "sib", "misc"):
             continue
         fs = []
         if rng.random() < rate:
@@ -550,12 +559,52 @@ def designed_c(cfg):
     return 100 if cs is None else max(1, min(cs, 100))
 
 
-def apply_env(op):
-    """Environment op. Returns True if it was one (callers `continue`)."""
+MISC_COUNT = {"rejected": 0, "rejected_raised": 0, "props": 0, "repr": 0, "dump": 0, "misc_raised": 0}
+
+
+def apply_env(op, ex=None):
+    """Environment / non-query op. Returns True if it was one (callers `continue`)."""
+    if op.get("op") == "misc":
+        if ex is not None:
+            _apply_misc(op, ex)
+        return True
     if op.get("op") != "env":
         return False
     torch.set_default_dtype(DTYPES[op["default_dtype"]])
     return True
+
+
+def _apply_misc(op, ex):
+    """Non-query uses of the object. No oracle of its own: whatever these calls do (a rejected call is *expected* to
+    raise; no listed property says what repr() prints), they are not queries, so the value / resource oracles of the
+    surrounding history must hold exactly as if they had not happened."""
+    import contextlib
+    import io
+    front, what = ex.b.front, op["what"]
+    MISC_COUNT[what] += 1
+    try:
+        if what == "rejected":
+            try:
+                front(xf(op["ta"]), xf(op["tb"]))
+            except (RuntimeError, ValueError):
+                MISC_COUNT["rejected_raised"] += 1
+        elif what == "props":
+            for obj in (front, ex.b.interval):
+                for name in ("shape", "dtype", "device", "levy_area_approximation", "entropy", "dt", "tol", "pool_size",
+                             "cache_size", "halfway_tree"):
+                    getattr(obj, name, None)
+                if obj is not None and hasattr(obj, "size"):
+                    obj.size()
+        elif what == "repr":
+            repr(front)
+            str(front)
+        elif what == "dump" and ex.b.interval is not None:
+            with contextlib.redirect_stdout(io.StringIO()):
+                ex.b.interval.display_binary_tree()
+    except (HarnessError, Violation, PassThrough):
+        raise
+    except Exception:  # noqa
+        MISC_COUNT["misc_raised"] += 1
 
 
 def restore_env():
